@@ -86,6 +86,7 @@ CHECKS = {
         "jobs": [
             job("conv", "c18", ["TestC18Conv", "TestC18Shortcuts"], 30000, 500000, 1, 4),
             job("life", "c18", ["TestC18Lifetime"], 400, 5000, 2, 10),
+            job("files", "c18", ["TestC18Files"], 300, 6000, 2, 8),
         ],
     },
     "C14": {
@@ -401,8 +402,9 @@ CHECKS = {
     },
     "C20": {
         "level": "exploration",
+        "tools": ["lockprobe"],
         "manifest": {
-            "technique": "randomised concurrent execution under the race detector, driven by the property-based harness: rapid generates plans of 2-16 goroutines x 1-8 operations (native selects / index searches / primary key lookups on rowid and WITHOUT ROWID tables, low-level scans and Schema under explicit RLock, sql.Parse, comparator calls, Open/Close churn, database/sql queries on a shared pool) over three shared files and one file per plan whose stored DDL (and the statements of a parse operation) spell their keywords in a generated letter case and which is first touched inside the concurrent phase, with GOMAXPROCS 1..16 and optional yields inside row callbacks; every result must equal the result of the same operation run alone",
+            "technique": "randomised concurrent execution under the race detector, driven by the property-based harness: rapid generates plans of 2-16 goroutines x 1-8 operations (native selects / index searches / primary key lookups on rowid and WITHOUT ROWID tables, low-level scans and Schema under explicit RLock, sql.Parse, comparator calls, Open/Close churn, database/sql queries on a shared pool) over three shared files and one file per plan whose stored DDL (and the statements of a parse operation) spell their keywords in a generated letter case and which is first touched inside the concurrent phase, with GOMAXPROCS 1..16 and optional yields inside row callbacks; every result must equal the result of the same operation run alone; half of the goroutines open the files under another name (hard link), and a probed select asks an out-of-process F_GETLK probe from inside its row callback whether the process still holds the SHARED lock",
             "level_text": "Generated plans, oracle = the operation's own sequential result (computed first in the same process; for operations on the plan's fresh file and fresh spellings computed after the concurrent phase, so that lazily filled shared state is filled under concurrency) plus the Go race detector (the check binary is built with -race; any report fails the run). Interleavings are whatever the Go scheduler produces for the generated GOMAXPROCS / yield settings; not enumerated, not reproducible schedule-by-schedule.",
             "level_note": "Each goroutine uses its own native handles (the documented usage); the database/sql pool is shared, as database/sql intends.",
         },
@@ -410,7 +412,7 @@ CHECKS = {
                  "Non-trivial = at least two goroutines use the same file. Distinct = fingerprint of the plan."),
         "assumptions": ["the Go race detector sees the accesses of the interleavings that actually happen"],
         "min_nontrivial": {"quick": 60, "thorough": 1500},
-        "required_classes": ["procs=1", "procs=16", "same-file=true", "yield=true", "workers<=16", "fresh-state-shared=true"],
+        "required_classes": ["procs=1", "procs=16", "same-file=true", "yield=true", "workers<=16", "fresh-state-shared=true", "op:select-probed"],
         "timeout": {"quick": 500, "thorough": 2400},
         "jobs": [
             job("concurrent", "c20", ["TestC20Concurrent"], 40, 500, 3, 8, race=True, shrinktime="5s"),
